@@ -11,19 +11,11 @@ Arguments N.eqb : simpl never.
 Arguments dedup_sort : simpl never.
 Arguments len : simpl never.
 
-(* a lock on the key that filterAggressiveLockedKeys just took out of the previous attempt's map *)
-Definition pend_ok (s : st) (frompr : bool) (k : key) (p : slock) : Prop :=
-  frompr = true /\ fst p = k /\ exists f', snd p = Pess f' /\ f' <= fu s.
-
-Lemma lock_rpc_agg k a assigned rv ce loie f o s frompr :
-  agg s = Some a ->
-  (forall p, In p (store s) -> covered s p \/ pend_ok s frompr k p) ->
-  lwc_ok s -> cnt_ok s -> book_ok s -> fu s = f ->
-  findk k (cur a) = None ->
-  (frompr = true -> hard_fail o = false /\ (loie = true -> ~ In k (lo_absent o))) ->
+Lemma lock_rpc_agg k a assigned rv ce loie f o s :
+  agg s = Some a -> Inv s -> book_ok s -> fu s = f -> findk k (cur a) = None ->
   Inv (lock_rpc [k] [k] assigned rv ce loie f o s).
 Proof.
-  intros Ha HI HL HC B Hf Hnc Hsafe. unfold lock_rpc.
+  intros Ha (HI & HL & HC) B Hf Hnc. unfold lock_rpc.
   assert (Hw : eff_lwc s [k] o = lo_lwc o) by (unfold eff_lwc; rewrite Ha; auto). rewrite Hw.
   set (w := lo_lwc o). set (lf := N.max f w).
   set (st1 := fold_right (put_pess lf) (store s) (eff_locked [k] loie o)).
@@ -43,37 +35,33 @@ Proof.
       * intros p Hp. simpl in Hp. apply Hst1 in Hp. destruct Hp as [(H1 & H2 & _)|Hp].
         -- right. apply cov_task_new. destruct p as [k0 l]; simpl in H1, H2; subst k0 l.
            apply releases_pessrb; [simpl; auto|lia].
-        -- destruct (HI p Hp) as [[[_ Hc]|Ht]|(_ & P1 & f' & P2 & P3)].
+        -- destruct (HI p Hp) as [[_ Hc]|Ht].
            ++ destruct p as [k0 [f'|]]; simpl in Hc; [|tauto].
-              destruct Hc as [[H1 H2]|(e0 & (a0 & Ha0 & Hfd) & H2)].
+              destruct Hc as [[H1 H2]|(a0 & e0 & Ha0 & Hfd & H2)].
               ** left. split; [unfold book_ok; simpl; auto|]. simpl. left. auto.
               ** rewrite Ha in Ha0. inversion Ha0; subst a0.
-                 left. split; [unfold book_ok; simpl; auto|]. simpl. right. exists e0. split; auto.
-                 eexists. split; [reflexivity|]. simpl. destruct Hfd as [Hfd|Hfd]; auto. left.
+                 left. split; [unfold book_ok; simpl; auto|]. simpl. right.
+                 eexists. exists e0. split; [reflexivity|]. simpl. split; [|lia].
+                 destruct Hfd as [Hfd|Hfd]; auto. left.
                  change (fun p : N * entry => negb ((fst p =? k) || false)) with (fun p : N * entry => negb (memk (fst p) [k])).
                  rewrite findk_filter_notin. destruct (memk k0 [k]) eqn:Em; auto.
                  apply memk_In in Em. simpl in Em. destruct Em as [Em|[]]. subst k0. congruence.
            ++ right. apply cov_task_add. destruct Ht as (t & T1 & T2). exists t; auto.
-           ++ right. apply cov_task_new. destruct p as [k0 l]; simpl in P1, P2; subst k0 l.
-              apply releases_pessrb; [simpl; auto|lia].
       * intros a' k0 e0 Ha' Hin. simpl in Ha'. inversion Ha'; subst a'. simpl in *.
         apply HL2 with k0. apply in_app_or in Hin. apply in_or_app. destruct Hin as [Hin|Hin]; auto.
         apply filter_In in Hin. tauto.
       * unfold cnt_ok, agg_len in *. simpl. rewrite Ha in HC.
         pose proof (length_filter_le (fun p : N * entry => negb (memk (fst p) [k])) (cur a)) as Hlen.
         unfold len in *. simpl. simpl in Hlen. lia.
-    + (* single key, write conflict / key exists: no rollback *)
-      assert (Hh : hard_fail o = true) by (unfold hard_fail; rewrite Er, Eb; auto).
-      assert (Hnp : frompr = false).
-      { destruct frompr; auto. destruct (Hsafe eq_refl). congruence. }
+    + (* single key, write conflict / key exists: no rollback; a key of the previous attempt stays there *)
       assert (Est : st1 = store s).
       { unfold st1, eff_locked, hard_single. rewrite Er, Eb. reflexivity. }
       simpl. rewrite Est. split; [|split].
-      * intros p Hp. simpl in Hp. destruct (HI p Hp) as [[[_ Hc]|Ht]|(P0 & _)]; [| |congruence].
+      * intros p Hp. simpl in Hp. destruct (HI p Hp) as [[_ Hc]|Ht].
         -- left. split; [unfold book_ok; simpl; auto|]. simpl.
-           destruct (snd p) as [f'|]; auto. destruct Hc as [Hc|(e0 & (a0 & Ha0 & Hfd) & H2)]; auto.
-           rewrite Ha in Ha0. inversion Ha0; subst a0. right. exists e0. split; auto.
-           eexists. split; [reflexivity|]. simpl. auto.
+           destruct (snd p) as [f'|]; auto. destruct Hc as [Hc|(a0 & e0 & Ha0 & Hfd & H2)]; auto.
+           rewrite Ha in Ha0. inversion Ha0; subst a0. right.
+           eexists. exists e0. split; [reflexivity|]. simpl. split; auto. lia.
         -- right. destruct Ht as (t & T1 & T2). exists t; auto.
       * intros a' k0 e0 Ha' Hin. simpl in Ha'. inversion Ha'; subst a'. simpl in *. eapply HL2; eauto.
       * unfold cnt_ok, agg_len in *. simpl. rewrite Ha in HC. auto.
@@ -85,8 +73,6 @@ Proof.
     { unfold s3. destruct (assigned && loie); simpl; [|repeat split; auto].
       destruct (primary s); simpl; [|repeat split; auto]. destruct (memk _ _); simpl; repeat split; auto. }
     destruct E3 as (Est & Efl & Eag & Ecn & Etk & Eva & Epe & Eco & Efu & Ecm).
-    assert (Hent : forall k0 e0, agg_entry s k0 e0 -> agg_entry s3 k0 e0).
-    { intros k0 e0 (a0 & Ha0 & Hfd). rewrite Ha in Ha0. inversion Ha0; subst a0. exists a2. split; auto. }
     apply (finish_lock_Inv [k] rv ce loie (lo_absent o) w s3
              (filter (fun p => (fst p =? k) && match snd p with Pess f' => f' <=? lf | Prew => false end
                                && memk k (kept loie (lo_absent o) [k])) st1)).
@@ -94,15 +80,12 @@ Proof.
       * right. apply filter_In. split; [exact Hp0|]. rewrite H1, H2, N.eqb_refl. simpl.
         apply andb_true_iff. split; [apply N.leb_le; lia|]. apply memk_In, kept_In.
         apply eff_locked_In in H3. auto.
-      * destruct (HI p Hp) as [[[_ Hc]|Ht]|(P0 & P1 & f' & P2 & P3)].
+      * destruct (HI p Hp) as [[_ Hc]|Ht].
         -- left. left. split; [unfold book_ok; rewrite Eva, Epe, Eco; auto|].
-           destruct (snd p) as [f'|]; auto. destruct Hc as [[H1 H2]|(e0 & He0 & H2)].
+           destruct (snd p) as [f'|]; auto. destruct Hc as [[H1 H2]|(a0 & e0 & Ha0 & Hfd & H2)].
            ++ left. rewrite Efl, Efu, Ecm. auto.
-           ++ right. exists e0. rewrite Efu. auto.
+           ++ rewrite Ha in Ha0. inversion Ha0; subst a0. right. exists a2, e0. rewrite Efu. simpl. repeat split; auto. lia.
         -- left. right. destruct Ht as (t & T1 & T2). exists t. rewrite Etk. auto.
-        -- right. apply filter_In. split; [rewrite <- Est in Hp0; rewrite Est in Hp0; exact Hp0|].
-           rewrite P1, P2, N.eqb_refl. simpl. apply andb_true_iff. split; [apply N.leb_le; lia|].
-           apply memk_In, kept_In. destruct (Hsafe P0) as [_ Hab]. simpl. auto.
     + intros a' k0 e0 Ha' Hin. rewrite Eag in Ha'. inversion Ha'; subst a'. simpl in *. eapply HL2; eauto.
     + unfold cnt_ok, agg_len in *. rewrite Eag, Efl, Ecn. rewrite Ha in HC. simpl. auto.
     + intros k0 [Hk|[]]. subst k0. unfold in_cur. rewrite Eag. simpl.
@@ -128,7 +111,7 @@ Lemma filter_agg_single a rv ce f ex cs k :
   | Some e => if f <? e_lwc e then (a, [], true)
               else match (if cs then if ex then None else try_skip e rv ce else None) with
                    | Some e' => (a_cur ((k, e') :: delk k (cur a)) (a_prev (delk k (prev a)) a), [], false)
-                   | None => (a_prev (delk k (prev a)) a, [k], false)
+                   | None => (a, [k], false)
                    end
   | None => (a, [k], false)
   end.
@@ -141,20 +124,18 @@ Proof. unfold try_skip. destruct (if negb (e_lwc e =? 0) then _ else _); intros 
 
 (* the key is taken over from the previous attempt without a request *)
 Lemma skip_Inv s a k e e' :
-  Inv s -> agg s = Some a -> findk k (prev a) = Some e -> findk k (cur a) = None ->
-  e_lwc e <= fu s -> e_lwc e' = 0 ->
+  Inv s -> agg s = Some a -> findk k (prev a) = Some e -> e_lwc e' = 0 ->
   Inv (set_agg (Some (a_cur ((k, e') :: delk k (cur a)) (a_prev (delk k (prev a)) a))) s).
 Proof.
-  intros (HI & HL & HC) Ha Hp Hc Hle He'. split; [|split].
+  intros (HI & HL & HC) Ha Hp He'. split; [|split].
   - intros p Hin. simpl in Hin. destruct (HI p Hin) as [[B Hcv]|Ht].
     + left. split; [exact B|]. simpl. destruct (snd p) as [f'|]; auto.
-      destruct Hcv as [Hcv|(e0 & (a0 & Ha0 & Hfd) & H2)]; auto. right.
+      destruct Hcv as [Hcv|(a0 & e0 & Ha0 & Hfd & H2)]; auto. right.
       rewrite Ha in Ha0. inversion Ha0; subst a0.
       destruct (N.eq_dec (fst p) k) as [E|E].
-      * rewrite E in *. exists e'. split; [|rewrite He'; destruct Hfd as [Hfd|Hfd]; [congruence|]].
-        -- eexists. split; [reflexivity|]. left. simpl. rewrite N.eqb_refl. auto.
-        -- rewrite Hp in Hfd. inversion Hfd; subst e0. lia.
-      * exists e0. split; auto. eexists. split; [reflexivity|]. simpl.
+      * rewrite E in *. eexists. exists e'. split; [reflexivity|]. simpl. split; auto.
+        left. rewrite N.eqb_refl. auto.
+      * eexists. exists e0. split; [reflexivity|]. simpl. split; auto.
         destruct (N.eqb_spec (fst p) k); [congruence|].
         rewrite !findk_delk_ne by congruence. auto.
     + right. destruct Ht as (t & T1 & T2). exists t; auto.
